@@ -71,7 +71,11 @@ MkMethod(c, mc, k) ==
      \* groups = <<3, 1>>: the first three names share one identifier list, the fourth stands alone; <<>> = one name per declaration
      groups |-> IF "groups" \in DOMAIN mc THEN mc.groups ELSE <<>>,
      \* layout only: every name of the signature on a line of its own (a multi-name declaration then spans several lines)
-     multiline |-> ("multiline" \in DOMAIN mc /\ mc.multiline)]
+     multiline |-> ("multiline" \in DOMAIN mc /\ mc.multiline),
+     \* spelling only: what follows "@Hidden" / "@Deprecated" on their lines - a value in parentheses, a description (the route is
+     \* hidden / deprecated whichever way the annotation is spelled)
+     hiddenSfx |-> IF "hiddenSfx" \in DOMAIN mc THEN mc.hiddenSfx ELSE "",
+     deprecatedSfx |-> IF "deprecatedSfx" \in DOMAIN mc THEN mc.deprecatedSfx ELSE ""]
 
 MethodsOfLast == IF proj.ctrls = <<>> THEN 0
                  ELSE Cardinality({i \in DOMAIN proj.methods : proj.methods[i].ctrl = proj.ctrls[Len(proj.ctrls)].id})
